@@ -4,6 +4,8 @@ import (
 	"bytes"
 	"encoding/json"
 	"fmt"
+	"go.sia.tech/core/gateway"
+	"go.sia.tech/core/types"
 	"os"
 	"sort"
 	"strings"
@@ -43,6 +45,15 @@ type C12Node struct {
 	Batch       int `json:"batch,omitempty"` // pre-load batch size
 }
 
+// FreshSpec: see C12Case.Fresh.
+type FreshSpec struct {
+	Miner int `json:"miner"` // node index (mod the number of nodes)
+	// Pool: the miner first puts the transactions into its pool and broadcasts
+	// them as a v2 transaction set; the block follows once the set had time to
+	// travel (receivers then complete the outline from their pools).
+	Pool bool `json:"pool,omitempty"`
+}
+
 // C12Edge is one connection: From dials To after DelayMS.
 type C12Edge struct {
 	From    int `json:"from"`
@@ -57,6 +68,12 @@ type C12Case struct {
 	Nodes   []C12Node    `json:"nodes"`
 	Edges   []C12Edge    `json:"edges"`
 	Outline bool         `json:"outline,omitempty"` // announce v2 tips by outline only (else header + outline)
+	// Fresh: once the cluster has come to rest on its dominating tip, one node
+	// mines a child of it that carries transactions nobody else holds (the tree
+	// must contain such a child) and announces it the way a miner does whose
+	// pool held them: by an outline without transaction bodies. From the start
+	// of such a case every announcement is an outline without bodies.
+	Fresh *FreshSpec `json:"fresh,omitempty"`
 	// Excluded names a known finding whose shape the generator removed.
 	Excluded string `json:"excluded,omitempty"`
 	// V1Converges: the branches of the case differ by more than one block, so
@@ -284,6 +301,69 @@ type clusterNode struct {
 	initial uint64
 }
 
+// freshStep performs C12Case.Fresh; it returns the freshly mined block, or nil
+// if the step does not apply (no dominating v2 tip every node is on, no
+// suitable child in the tree).
+func freshStep(c C12Case, tr *kit.Tree, nodes []*clusterNode, dom *kit.TNode, cs *kit.CaseStats) *kit.TNode {
+	if dom == nil || dom.Block.V2 == nil {
+		cs.Class("fresh:skipped(no-dominating-v2-tip)")
+		return nil
+	}
+	for _, n := range nodes {
+		if n.sn.Node.CM.Tip() != dom.Index() {
+			cs.Class("fresh:skipped(not-all-on-the-dominating-tip)")
+			return nil
+		}
+	}
+	var g *kit.TNode
+	for _, n := range tr.Nodes {
+		if n.Parent == dom && n.Valid() && n.Block.V2 != nil && len(n.Block.V2.Transactions) > 0 && len(n.Block.Transactions) == 0 {
+			g = n
+			break
+		}
+	}
+	if g == nil {
+		cs.Class("fresh:skipped(no-child-with-transactions)")
+		return nil
+	}
+	miner := nodes[mod(c.Fresh.Miner, len(nodes))]
+	txns := g.Block.V2.Transactions
+	if c.Fresh.Pool {
+		if _, err := miner.sn.Node.CM.AddV2PoolTransactions(dom.Index(), txns); err != nil {
+			cs.Class("fresh:skipped(pool-refused-the-transactions)")
+			return nil
+		}
+		miner.sn.S.BroadcastV2TransactionSet(dom.Index(), txns)
+		// give the set time to travel (best effort: a node it did not reach asks
+		// for the transactions when the outline arrives)
+		everywhere := false
+		for deadline := time.Now().Add(3 * time.Second); time.Now().Before(deadline) && !everywhere; time.Sleep(20 * time.Millisecond) {
+			everywhere = true
+			for _, n := range nodes {
+				have := map[types.TransactionID]bool{}
+				for _, t := range n.sn.Node.CM.V2PoolTransactions() {
+					have[t.ID()] = true
+				}
+				for _, t := range txns {
+					if !have[t.ID()] {
+						everywhere = false
+					}
+				}
+			}
+		}
+		if everywhere {
+			cs.Class("fresh:transaction-set-relayed-to-every-pool")
+		} else {
+			cs.Class("fresh:transaction-set-did-not-reach-every-pool-within-3s")
+		}
+	}
+	miner.sn.Node.Submit([]types.Block{g.Block})
+	miner.sn.S.BroadcastV2BlockOutline(gateway.OutlineBlock(g.Block, g.Block.Transactions, txns))
+	cs.Classf("fresh:mined-and-announced-by-outline-without-bodies,pool=%v", c.Fresh.Pool)
+	cs.NonTrivial()
+	return g
+}
+
 func runC12(c C12Case, cs *kit.CaseStats) error {
 	if len(c.Nodes) < 2 {
 		return nil
@@ -408,6 +488,12 @@ func runC12(c C12Case, cs *kit.CaseStats) error {
 	}
 	var stall stallTracker
 	stalled := ""
+	freshDone := false
+	if c.Fresh != nil {
+		for _, n := range nodes {
+			n.sn.Stripped = true
+		}
+	}
 
 	// run until quiescent or out of budget
 	start := time.Now()
@@ -496,6 +582,14 @@ func runC12(c C12Case, cs *kit.CaseStats) error {
 				break
 			}
 		}
+		if time.Since(lastChange) >= netStable && c.Fresh != nil && !freshDone {
+			freshDone = true
+			if g := freshStep(c, tr, nodes, dom, cs); g != nil {
+				dom = g
+				lastChange = time.Now()
+				continue
+			}
+		}
 		if time.Since(lastChange) >= netStable {
 			quiescent = true
 			break
@@ -545,6 +639,22 @@ func runC12(c C12Case, cs *kit.CaseStats) error {
 		for _, b := range n.sn.Store.Bans() {
 			// honest nodes serving valid chains must not get each other banned
 			return fmt.Errorf("node %d banned %s although every node is honest: %s", i, b.Addr, b.Reason)
+		}
+	}
+	if c.Fresh != nil {
+		asked, short := 0, 0
+		for _, n := range nodes {
+			a, sh := n.sn.CM.PartialBlocks()
+			asked, short = asked+a, short+sh
+		}
+		if asked > 0 {
+			cs.Class("fresh:outline-completed-from-pool-attempted")
+		}
+		if short > 0 {
+			cs.Class("fresh:pool-lacked-transactions(SendTransactions-round-trip)")
+		}
+		if asked > short {
+			cs.Class("fresh:outline-completed-from-the-pool-alone")
 		}
 	}
 	finals := make([]*kit.TNode, len(nodes))
